@@ -1,12 +1,10 @@
 #!/bin/bash
-# setup_cmd: pre-build every per-property binary (all variants) so that checks only pay incremental builds.
+# setup_cmd: pre-build every registered per-property binary (all variants) so that checks only pay incremental builds.
 set -u
 cd "$(dirname "$0")/.."
 . scripts/env.sh
 rc=0
-for d in cmd/c*/; do
-  id=$(basename "$d")
-  ID=$(echo "$id" | tr 'a-z' 'A-Z')
+for ID in $(python3 -c "import json;print(' '.join(c['property_id'] for c in json.load(open('MANIFEST.json'))['checks']))"); do
   scripts/run.sh "$ID" selftest || rc=1
 done
 exit $rc
